@@ -1431,7 +1431,10 @@ class Simplifier:
                     cond = cond.replace(this.pop().eq(cond))
 
                 if always_true(cond):
-                    return case.args["true"]
+                    if case is expression.args["ifs"][0]:
+                        return case.args["true"]
+                    # An earlier branch whose condition isn't statically known may still match
+                    break
 
                 if always_false(cond):
                     case.pop()
